@@ -6,7 +6,7 @@ CHECK = {
     ],
     "min_nontrivial": (200000, 4000000),
     "timeout": (900, 7200),
-    "rule": ("sub-check solve (3/4 of the cases): rapidcheck-generated quadratics 0.5x'Ax+a'x, A = s*Q*diag(kappa^e_i)*Q' with Q from the Householder QR of a "
+    "rule": ("[solve also runs BFGS with the documented `scaled` initialisation as a third solver variant] sub-check solve (3/4 of the cases): rapidcheck-generated quadratics 0.5x'Ax+a'x, A = s*Q*diag(kappa^e_i)*Q' with Q from the Householder QR of a "
              "generated Gaussian matrix, n in 1..16, kappa in [1,1e3] (30 % exactly 1e3), s in [1e-3,1e3] (10 % on each end), three spectrum layouts, 30 % of the instances from the region that costs most evaluations (n >= 12, "
              "kappa mostly 1e3, s mostly 1e-3), "
              "x* in [-5,5]^n (also corners, origin), x0 in [-10,10]^n (also corners, x0 = x*), solver lbfgs|bfgs at epsilon 1e-8, max_evals 1500; oracle: "
